@@ -2,12 +2,23 @@
 """For every kept seeded change, record it as a patch mutant of its property's thorough tier:
 mutants/<id>/seeds.json = [{name, patch, expect}], where expect is the obligation (rule/construct,
 ordinal stripped) that fails when the change is applied. Seeds no rule reports are skipped and listed."""
-import json, os, re, subprocess, sys
+import fnmatch, glob, json, os, re, subprocess, sys
 os.chdir('/verif')
 by = {}
 missed = []
+# optional arguments: shell patterns of seed names to (re)compute; all other
+# entries are kept as recorded
+pats = sys.argv[1:]
+old = {}
+for fn in glob.glob('mutants/*/seeds.json'):
+    for m in json.load(open(fn)):
+        old[m['name']] = m
 for name in sorted(os.listdir('seeded')):
     pid = name.split('-')[0]
+    if pats and not any(fnmatch.fnmatch(name, p) for p in pats):
+        if 'seed-' + name in old:
+            by.setdefault(pid, []).append(old['seed-' + name])
+        continue
     patch = f'/verif/seeded/{name}/patch.diff'
     if subprocess.run(['git', '-C', '/repo', 'apply', '--check', patch]).returncode != 0:
         print('NOAPPLY', name); continue
